@@ -157,6 +157,36 @@ Qed.
 Lemma neg_obj_read_arr ty : neg (Obj.obj_read_arr false None ty).
 Proof. unfold Obj.obj_read_arr. apply neg_bind; [apply neg_read_int32|intros; apply neg_read_objects]. Qed.
 
+(* ---- a read that succeeds under an allocation schedule is the read without failures: same elements, same rest of the stream ---- *)
+Lemma elems_spec_mono is_str packed : forall n k s m qs k' s' m', elems_spec is_str packed n k s m = EOk qs k' s' m' ->
+  elems_spec is_str packed n (-1) s m = EOk qs (-1) s' m'.
+Proof.
+  induction n as [|n IH]; intros k s m qs k' s' m' E; cbn [elems_spec] in *.
+  - injection E as <- _ <- <-. reflexivity.
+  - destruct (if packed then read_7bit s else read_int32 false s) as [[len s1]|e]; [|discriminate].
+    destruct (len <? 0); [discriminate|]. destruct (is_str && (len =? int_max)); [discriminate|].
+    destruct (k =? 0); [discriminate|]. change (-1 =? 0) with false. cbv iota. destruct (zlen s1 <? len); [discriminate|].
+    change (next_fail (-1)) with (-1).
+    destruct (elems_spec is_str packed n (next_fail k) (skipn (Z.to_nat len) s1) (elem_block is_str m (firstn (Z.to_nat len) s1))) as [ps k2 s2 m2|e] eqn:ER; [|discriminate].
+    injection E as <- _ <- <-. rewrite (IH _ _ _ _ _ _ _ ER). reflexivity.
+Qed.
+
+Lemma arr_spec_mono k sx m v cnt pk qs k' s' m' : arr_spec k sx m v cnt pk = EOk qs k' s' m' -> arr_spec (-1) sx m v cnt pk = EOk qs (-1) s' m'.
+Proof.
+  unfold arr_spec. destruct (cnt <? 0); [discriminate|]. destruct (k =? 0); [discriminate|]. destruct (dec k =? 0); [discriminate|].
+  change (-1 =? 0) with false. change (dec (-1)) with (-1). change (-1 =? 0) with false. cbv iota.
+  destruct (pk =? 0).
+  - apply elems_spec_mono.
+  - destruct (read_int32 false sx) as [[x s1]|e]; [|discriminate]. apply elems_spec_mono.
+Qed.
+
+Lemma fixed_status_mono k sx v cnt : fixed_status k sx v cnt = SBDF_OK -> fixed_status (-1) sx v cnt = SBDF_OK.
+Proof.
+  unfold fixed_status. destruct (cnt <? 0); [discriminate|]. destruct (k =? 0); [discriminate|]. change (-1 =? 0) with false. cbv iota.
+  destruct (usize v <? 0) eqn:E; [pose proof (Z.ltb_lt (usize v) 0) as [H _]; specialize (H E); unfold SBDF_OK; intros X; rewrite X in H; lia|].
+  destruct (k =? 1); [discriminate|]. change (-1 =? 1) with false. cbv iota. exact (fun x => x).
+Qed.
+
 (* ---- sbdf_obj_read_arr for any element type: one statement for the callers ---- *)
 Lemma obj_read_arr_any rf rp fo po v bv k sx h m o : Forall byte sx ->
   exists st cn e r so' k' sx' h' m',
@@ -166,13 +196,15 @@ Lemma obj_read_arr_any rf rp fo po v bv k sx h m o : Forall byte sx ->
     ((st = SBDF_OK /\ so' = VCell (List.length h) 0 /\ Forall byte sx' /\
        exists newb, h' = h ++ newb /\ (1 <= List.length newb)%nat /\
          forall pre2 : heap, List.length pre2 = List.length h -> destroys m' (pre2 ++ newb) (List.length h) (pre2 ++ nones (List.length newb)))
-     \/ (st < 0 /\ so' = VNull /\ exists j, h' = h ++ nones j)).
+     \/ (st < 0 /\ so' = VNull /\ exists j, h' = h ++ nones j)) /\
+    (st = SBDF_OK -> match Obj.obj_read_arr false None v sx with Ok (_, s') => sx' = s' | Err _ => False end).
 Proof.
   intros Hs. pose proof (obj_read_arr_bs rf rp fo po v VNull bv k sx h m o Hs) as A.
   destruct (read_int32 false sx) as [[cnt s1]|st] eqn:ER.
   2: { destruct A as (cn & e & r & sx' & B). pose proof (read_int32_err sx st ER). subst st.
        exists SBDF_ERROR_IO, cn, e, r, VNull, k, sx', h, m. split; [exact B|]. split; [exists []; now rewrite app_nil_r|].
        split; [intros _; unfold Obj.obj_read_arr, rd_bind; rewrite ER; reflexivity|].
+       split; [|intros X; cbv in X; discriminate X].
        right. split; [reflexivity|]. split; [reflexivity|]. exists 0%nat. cbn. now rewrite app_nil_r. }
   assert (Hc : int_min <= cnt <= int_max) by (eapply read_int32_range; [exact Hs|exact ER]).
   pose proof (read_int32_bytes sx cnt s1 Hs ER) as Hs1.
@@ -186,6 +218,9 @@ Proof.
       do 9 eexists. split; [exact B2|]. split; [exact Pf|].
       split; [intros Hk; unfold Obj.obj_read_arr, rd_bind; rewrite ER; pose proof (arr_spec_model k s1 m v cnt 1 Hk Ha Hs1) as MT; change (negb (1 =? 0)) with true in MT;
               destruct (Obj.read_objects false None v cnt true s1) as [[ob sM]|eM]; [destruct MT as (qs2 & MT & _); rewrite ES in MT; injection MT as _ <- <- _; repeat split; reflexivity|rewrite ES in MT; discriminate]|].
+      split; [|intros _; unfold Obj.obj_read_arr, rd_bind; rewrite ER; pose proof (arr_spec_model (-1) s1 m v cnt 1 ltac:(lia) Ha Hs1) as MT; change (negb (1 =? 0)) with true in MT;
+               rewrite (arr_spec_mono _ _ _ _ _ _ _ _ _ _ ES) in MT;
+               destruct (Obj.read_objects false None v cnt true s1) as [[ob sM]|eM]; [destruct MT as (qs2 & MT & _); injection MT as _ Es _; exact Es|discriminate MT]].
       left. split; [reflexivity|]. split; [reflexivity|]. split; [exact Hb'|].
       exists [Some [VInt v; VInt cnt; VCell (S (List.length h)) 0]; Some (map (fun p => VPtr RIn p) qs ++ [])]. split; [reflexivity|]. split; [cbn; lia|].
       intros pre2 Hp2. rewrite <- Hp2.
@@ -199,6 +234,7 @@ Proof.
       do 9 eexists. split; [exact B2|]. split; [exact Pf|].
       split; [intros Hk; unfold Obj.obj_read_arr, rd_bind; rewrite ER; pose proof (arr_spec_model k s1 m v cnt 1 Hk Ha Hs1) as MT; change (negb (1 =? 0)) with true in MT;
               destruct (Obj.read_objects false None v cnt true s1) as [[ob sM]|eM]; [destruct MT as (qs2 & MT & _); rewrite ES in MT; discriminate|rewrite ES in MT; injection MT as <-; reflexivity]|].
+      split; [|intros X; pose proof (arr_spec_neg _ _ _ _ _ _ _ ES) as Hng; unfold SBDF_OK in X; lia].
       right. split; [eapply arr_spec_neg; exact ES|]. split; [reflexivity|].
       destruct Hh as [->|[->| ->]]; [exists 0%nat; cbn; now rewrite app_nil_r|exists 1%nat; reflexivity|exists 2%nat; reflexivity].
   - (* fixed-size elements *)
@@ -209,6 +245,9 @@ Proof.
       do 9 eexists. split; [exact B2|]. split; [eexists; reflexivity|].
       split; [intros Hk; unfold Obj.obj_read_arr, rd_bind; rewrite ER; pose proof (fixed_status_model k s1 v cnt true Hk Ha) as MT;
               destruct (Obj.read_objects false None v cnt true s1) as [[ob sM]|eM]; [destruct MT as (_ & -> & _); (split; [reflexivity|split; [reflexivity|unfold dec; replace (0 <? k) with false by lia; replace (0 <? k) with false by lia; reflexivity]])|rewrite E in MT; subst eM; reflexivity]|].
+      split; [|intros _; unfold Obj.obj_read_arr, rd_bind; rewrite ER; pose proof (fixed_status_model (-1) s1 v cnt true ltac:(lia) Ha) as MT; rewrite (fixed_status_mono _ _ _ _ E) in MT;
+               pose proof (neg_read_objects v cnt true s1) as NG;
+               destruct (Obj.read_objects false None v cnt true s1) as [[ob sM]|eM]; [destruct MT as (_ & -> & _); reflexivity|specialize (NG eM eq_refl); unfold SBDF_OK in MT; lia]].
       left. split; [reflexivity|]. split; [reflexivity|]. split; [apply Forall_skipn_byte; exact Hs1|].
       exists [Some [VInt v; VInt cnt; VPtr RIn (zlen m)]]. split; [reflexivity|]. split; [cbn; lia|].
       intros pre2 Hp2. rewrite <- Hp2.
@@ -218,6 +257,7 @@ Proof.
       do 9 eexists. split; [exact B2|]. split; [exists mm; reflexivity|].
       split; [intros Hk; unfold Obj.obj_read_arr, rd_bind; rewrite ER; pose proof (fixed_status_model k s1 v cnt true Hk Ha) as MT;
               destruct (Obj.read_objects false None v cnt true s1) as [[ob sM]|eM]; [destruct MT as (MT & _); rewrite MT in E; discriminate E|exact MT]|].
+      split; [|intros X; unfold SBDF_OK in X; lia].
       right. split; [exact E|]. split; [reflexivity|].
       destruct Hh as [->| ->]; [exists 0%nat; cbn; now rewrite app_nil_r|exists 1%nat; reflexivity].
 Qed.
@@ -312,16 +352,17 @@ Lemma rvi_read_plain k1 t s2 h m : Forall byte s2 ->
     ((st = SBDF_OK /\ Forall byte s' /\
         exists newb, h' = h ++ Some [VInt t; VInt 1; VInt 0; VCell (S L) 0; VInt 0] :: newb /\ (1 <= List.length newb)%nat /\
           va_rel m' h' L (h ++ None :: nones (List.length newb)))
-     \/ (st < 0 /\ exists j, h' = h ++ None :: nones j)).
+     \/ (st < 0 /\ exists j, h' = h ++ None :: nones j)) /\
+    (st = SBDF_OK -> match Obj.obj_read_arr false None t s2 with Ok (_, sM) => s' = sM | Err _ => False end).
 Proof.
   intros Hs2 L. set (h1 := h ++ [Some [VInt t; VInt 1; VInt 0; VInt 0; VInt 0]]).
   assert (HL1 : List.length h1 = S L) by (unfold h1; rewrite app_length; cbn; lia).
-  destruct (obj_read_arr_any rf ROut fo 0 t bv k1 s2 h1 m o Hs2) as (st & cn & e & r & so' & k' & sx' & h' & m' & B & Pf & MT & Out).
+  destruct (obj_read_arr_any rf ROut fo 0 t bv k1 s2 h1 m o Hs2) as (st & cn & e & r & so' & k' & sx' & h' & m' & B & Pf & MT & Out & MT2).
   rewrite HL1 in Out.
   assert (Hh1 : h1 = h ++ [Some [VInt t; VInt 1; VInt 0; VInt 0; VInt 0]]) by reflexivity.
   destruct Out as [(-> & -> & Hb' & newb & -> & Hnb & D)|(Hneg & -> & j & ->)].
   - (* the values were read *)
-    exists SBDF_OK. eexists (Build_rvl _ _ _ _ _ _ _ _ _). do 4 eexists. split; [|split; [exact Pf|split; [exact MT|left; split; [reflexivity|split; [exact Hb'|exists newb; split; [reflexivity|split; [exact Hnb|]]]]]]].
+    exists SBDF_OK. eexists (Build_rvl _ _ _ _ _ _ _ _ _). do 4 eexists. split; [|split; [exact Pf|split; [exact MT|split; [left; split; [reflexivity|split; [exact Hb'|exists newb; split; [reflexivity|split; [exact Hnb|]]]]|exact MT2]]]].
     2: { set (pre2 := h ++ [Some [VInt t; VInt 1; VInt 0; VCell (S L) 0; VInt 0]]).
          assert (Hp2 : List.length pre2 = S L) by (unfold pre2, L; rewrite app_length; cbn; lia).
          assert (HX : h ++ Some [VInt t; VInt 1; VInt 0; VCell (S L) 0; VInt 0] :: newb = pre2 ++ newb) by (unfold pre2; rewrite <- app_assoc; reflexivity).
@@ -346,7 +387,7 @@ Proof.
                   ltac:(unfold va_block, hX, L; rewrite nth_error_app2 by lia; rewrite Nat.sub_diag; reflexivity)
                   ltac:(left; split; reflexivity) ltac:(left; split; reflexivity) eq_refl eq_refl) as D.
     assert (HK : kill L hX = h ++ None :: nones j) by (unfold kill, hX, L; rewrite set_nth_v_app; reflexivity). rewrite HK in D.
-    exists st. eexists (Build_rvl _ _ _ _ _ _ _ _ _). do 4 eexists. split; [|split; [exact Pf|split; [exact MT|right; split; [exact Hneg|exists j; reflexivity]]]].
+    exists st. eexists (Build_rvl _ _ _ _ _ _ _ _ _). do 4 eexists. split; [|split; [exact Pf|split; [exact MT|split; [right; split; [exact Hneg|exists j; reflexivity]|exact MT2]]]].
     cbn [fbody prog_sbdf_read_valuearray_int disp_of]. unrv. revert B. unfold ora, fr. cbn [app]. intros B.
     eapply bsE_seq_ret.
     eapply bsE_if; [evw; chk7; reflexivity|reflexivity|].
@@ -379,7 +420,10 @@ Lemma rvi_read_rle k1 t s2 h m : Forall byte s2 ->
         exists rows newb1 newb2, 0 <= rows /\ h' = h ++ Some [VInt t; VInt 2; VInt rows; VCell (S L) 0; VCell (S L + List.length newb1) 0] :: newb1 ++ newb2 /\
           (1 <= List.length newb1)%nat /\ (1 <= List.length newb2)%nat /\
           va_rel m' h' L (h ++ None :: nones (List.length newb1 + List.length newb2)))
-     \/ (st < 0 /\ exists j, h' = h ++ None :: nones j)).
+     \/ (st < 0 /\ exists j, h' = h ++ None :: nones j)) /\
+    (st = SBDF_OK -> match (v <-r read_int32 false ;; if v <? 0 then rfail SBDF_ERROR_INVALID_SIZE else
+                        _ <-r Obj.obj_read_arr false None SBDF_BYTETYPEID ;; _ <-r Obj.obj_read_arr false None t ;; rret tt) s2 with
+               | Ok (_, sM) => s' = sM | Err _ => False end).
 Proof.
   intros Hs2 L.
   pose proof (read_int32_bs2 (h ++ [Some [VInt t; VInt 2; VInt 0; VInt 0; VInt 0]]) fv (VPtr ROut 0) VUndef bv k1 s2 m o I I Hs2) as R.
@@ -397,7 +441,7 @@ Proof.
   2: { (* the row count cannot be read *)
     destruct R as (c' & sR & R). pose proof (read_int32_err s2 e ER). subst e.
     pose proof (DH k1 sR m 0 (VInt 0) (VInt 0) eq_refl eq_refl 0%nat) as D.
-    exists SBDF_ERROR_IO. eexists (Build_rvl _ _ _ _ _ _ _ _ _). do 4 eexists. split; [|split; [exists []; now rewrite app_nil_r|split; [intros _; unfold rd_bind; rewrite ER; reflexivity|right; split; [reflexivity|exists 0%nat; reflexivity]]]].
+    exists SBDF_ERROR_IO. eexists (Build_rvl _ _ _ _ _ _ _ _ _). do 4 eexists. split; [|split; [exists []; now rewrite app_nil_r|split; [intros _; unfold rd_bind; rewrite ER; reflexivity|split; [right; split; [reflexivity|exists 0%nat; reflexivity]|intros X; cbv in X; discriminate X]]]].
     cbn [fbody prog_sbdf_read_valuearray_int disp_of]. unrv.
     eapply bsE_seq_ret. eapply bsE_if; [evw; chk7; reflexivity|reflexivity|]. eapply bsE_if; [evw; chk7; reflexivity|reflexivity|].
     eapply bsE_seq; [eapply bsE_decl0; evw; reflexivity|].
@@ -419,7 +463,7 @@ Proof.
   destruct (rows <? 0) eqn:Eneg.
   { (* a negative row count *)
     pose proof (DH k1 s3 m 0 (VInt 0) (VInt 0) eq_refl eq_refl 0%nat) as D.
-    exists SBDF_ERROR_INVALID_SIZE. eexists (Build_rvl _ _ _ _ _ _ _ _ _). do 4 eexists. split; [|split; [exists []; now rewrite app_nil_r|split; [intros _; unfold rd_bind, rfail; rewrite ER, Eneg; reflexivity|right; split; [reflexivity|exists 0%nat; reflexivity]]]].
+    exists SBDF_ERROR_INVALID_SIZE. eexists (Build_rvl _ _ _ _ _ _ _ _ _). do 4 eexists. split; [|split; [exists []; now rewrite app_nil_r|split; [intros _; unfold rd_bind, rfail; rewrite ER, Eneg; reflexivity|split; [right; split; [reflexivity|exists 0%nat; reflexivity]|intros X; cbv in X; discriminate X]]]].
     cbn [fbody prog_sbdf_read_valuearray_int disp_of]. eapply bsE_seq_ret. apply HEAD. unrv.
     eapply bsE_seq_ret. eapply bsE_if; [evw; chk7; evw; rewrite Eneg; reflexivity|reflexivity|].
     eapply bsE_seq; [eapply bsE_if; [evw; reflexivity|reflexivity|]; eapply bsE_call_void; [reflexivity|evw; reflexivity|reflexivity|rewrite Hh1; exact D|unfold fr; evw; reflexivity]|].
@@ -427,7 +471,7 @@ Proof.
   (* the run lengths *)
   set (h2 := h ++ [Some [VInt t; VInt 2; VInt rows; VInt 0; VInt 0]]).
   assert (HL2 : List.length h2 = S L) by (unfold h2; rewrite app_length; cbn; lia).
-  destruct (obj_read_arr_any rf ROut fo 0 SBDF_BYTETYPEID bv k1 s3 h2 m o Hs3) as (st1 & cn1 & e1 & r1 & so1 & k2 & s4 & h3 & m1 & B1 & Pf1 & MT1 & Out1).
+  destruct (obj_read_arr_any rf ROut fo 0 SBDF_BYTETYPEID bv k1 s3 h2 m o Hs3) as (st1 & cn1 & e1 & r1 & so1 & k2 & s4 & h3 & m1 & B1 & Pf1 & MT1 & Out1 & P1).
   rewrite HL2 in Out1.
   assert (STEP1 : bsE prog_env
        (SIf (EVar "handle") (SSeq (SExpr (ECellStore (EVar "*handle") (EConst 2) (EVar "v"))) (SSeq (SExpr (EAssign "$a2" (ECellLoad (EVar "*handle") (EConst 3) true)))
@@ -453,7 +497,7 @@ Proof.
   2: { (* the run lengths could not be read *)
     assert (tl1 = nones j1) by (rewrite Hh3 in Htl1; apply app_inv_head in Htl1; congruence). subst tl1.
     pose proof (DH k2 s4 m1 rows VNull (VInt 0) eq_refl eq_refl j1) as D.
-    exists st1. eexists (Build_rvl _ _ _ _ _ _ _ _ _). do 4 eexists. split; [|split; [exact Pf1|split; [|right; split; [exact Hneg1|exists j1; reflexivity]]]].
+    exists st1. eexists (Build_rvl _ _ _ _ _ _ _ _ _). do 4 eexists. split; [|split; [exact Pf1|split; [|split; [right; split; [exact Hneg1|exists j1; reflexivity]|intros X; unfold SBDF_OK in X; lia]]]].
     2: { intros Hk. specialize (MT1 Hk). unfold rd_bind, rfail. rewrite ER, Eneg. destruct (Obj.obj_read_arr false None SBDF_BYTETYPEID s3) as [[ob1 sM1]|eM1]; [destruct MT1 as (MT1 & _); unfold SBDF_OK in MT1; lia|exact MT1]. }
     cbn [fbody prog_sbdf_read_valuearray_int disp_of]. eapply bsE_seq_ret. apply HEAD.
     eapply bsE_seq; [unrv; eapply bsE_if; [evw; chk7; evw; rewrite Eneg; reflexivity|reflexivity|apply bsE_skip]|].
@@ -466,7 +510,7 @@ Proof.
   set (n1 := List.length newb1) in *.
   set (hA := h ++ Some [VInt t; VInt 2; VInt rows; VCell (S L) 0; VInt 0] :: newb1) in *.
   assert (HLA : List.length hA = (S L + n1)%nat) by (unfold hA, n1, L; rewrite app_length; cbn [List.length]; lia).
-  destruct (obj_read_arr_any rf ROut fo 0 t bv k2 s4 hA m1 o Hs4) as (st2 & cn2 & e2 & r2 & so2 & k3 & s5 & h4 & m2 & B2 & Pf2 & MT2 & Out2).
+  destruct (obj_read_arr_any rf ROut fo 0 t bv k2 s4 hA m1 o Hs4) as (st2 & cn2 & e2 & r2 & so2 & k3 & s5 & h4 & m2 & B2 & Pf2 & MT2 & Out2 & P2).
   rewrite HLA in Out2.
   assert (Pf12 : prefix_of m m2) by (destruct Pf1 as (x1 & ->); destruct Pf2 as (x2 & ->); exists (x1 ++ x2); now rewrite app_assoc).
   assert (Htl2 : exists tl, h4 = hA ++ tl) by (destruct Out2 as [(_ & _ & _ & newb & -> & _)|(_ & _ & j & ->)]; eexists; reflexivity).
@@ -497,7 +541,7 @@ Proof.
   destruct Out2 as [(-> & -> & Hs5 & newb2 & Hh4 & Hn2 & D2)|(Hneg2 & -> & j2 & Hh4)].
   - (* both objects were read *)
     assert (tl2 = newb2) by (rewrite Hh4 in Htl2; apply app_inv_head in Htl2; congruence). subst tl2.
-    exists SBDF_OK. eexists (Build_rvl _ _ _ _ _ _ _ _ _). do 4 eexists. split; [|split; [exact Pf12|split; [|left]]].
+    exists SBDF_OK. eexists (Build_rvl _ _ _ _ _ _ _ _ _). do 4 eexists. split; [|split; [exact Pf12|split; [|split; [left|]]]].
     + cbn [fbody prog_sbdf_read_valuearray_int disp_of] in *. eapply bsE_seq; [apply MAIN; unrv; eapply bsE_if; [evw; reflexivity|reflexivity|apply bsE_skip]|].
       eapply bsE_return. evw. chk7. reflexivity.
     + intros Hk. specialize (MT1 Hk). unfold rd_bind, rfail, rret. rewrite ER, Eneg.
@@ -517,6 +561,9 @@ Proof.
       split; [right; exists (S L + n1)%nat; split; [reflexivity|apply D2; exact Hp3]|].
       split; [unfold pre3; rewrite <- !app_assoc; rewrite !NL; reflexivity|]. split; [unfold pre3; rewrite <- !app_assoc; rewrite !NL; reflexivity|].
       unfold pre3, pre2. rewrite <- !app_assoc. cbn [app]. unfold kill, L. rewrite set_nth_v_app. rewrite nones_app. reflexivity.
+    + intros _. unfold rd_bind, rfail, rret. rewrite ER, Eneg. specialize (P1 eq_refl).
+      destruct (Obj.obj_read_arr false None SBDF_BYTETYPEID s3) as [[ob1 sM1]|eM1]; [|exact P1]. rewrite <- P1. specialize (P2 eq_refl).
+      destruct (Obj.obj_read_arr false None t s4) as [[ob2 sM2]|eM2]; exact P2.
   - (* the values could not be read: object1 and the handle are released *)
     assert (tl2 = nones j2) by (rewrite Hh4 in Htl2; apply app_inv_head in Htl2; congruence). subst tl2.
     set (pre2 := h ++ [Some [VInt t; VInt 2; VInt rows; VCell (S L) 0; VNull]]).
@@ -535,7 +582,7 @@ Proof.
     assert (HK : kill L hY = h ++ None :: nones (n1 + j2)).
     { unfold hY, pre2. rewrite <- !app_assoc. cbn [app]. unfold kill, L. rewrite set_nth_v_app. rewrite nones_app. reflexivity. }
     rewrite HK in D.
-    exists st2. eexists (Build_rvl _ _ _ _ _ _ _ _ _). do 4 eexists. split; [|split; [exact Pf12|split; [|right; split; [exact Hneg2|exists (n1 + j2)%nat; reflexivity]]]].
+    exists st2. eexists (Build_rvl _ _ _ _ _ _ _ _ _). do 4 eexists. split; [|split; [exact Pf12|split; [|split; [right; split; [exact Hneg2|exists (n1 + j2)%nat; reflexivity]|intros X; unfold SBDF_OK in X; lia]]]].
     2: { intros Hk. specialize (MT1 Hk). unfold rd_bind, rfail, rret. rewrite ER, Eneg.
          destruct (Obj.obj_read_arr false None SBDF_BYTETYPEID s3) as [[ob1 sM1]|eM1] eqn:EM1; [|pose proof (neg_obj_read_arr _ _ _ EM1); unfold SBDF_OK in MT1; lia].
          destruct MT1 as (_ & <- & ->). specialize (MT2 Hk).
@@ -580,13 +627,14 @@ Lemma rvi_read_bs k sx h m sh : Forall byte sx -> (forall t s2, sx <> 3 :: t :: 
   exists st l' sh' k' s' h' m',
     bsE prog_env (fbody prog_sbdf_read_valuearray_int) (rvr fv hv rvl0 sh bv k sx h m o) (OReturn (VInt st) (rvr fv hv l' sh' bv k' s' h' m' o)) /\ prefix_of m m' /\
     (k < 0 -> match Va.va_read false None sx with Ok (_, sM) => st = SBDF_OK /\ s' = sM | Err e => st = e end) /\
-    ((st = SBDF_OK /\ sh' = VCell L 0 /\ exists blk newb, h' = h ++ Some blk :: newb /\ va_rel m' h' L (h ++ None :: nones (List.length newb))) \/ (st < 0 /\ exists j, h' = h ++ nones j)).
+    ((st = SBDF_OK /\ sh' = VCell L 0 /\ exists blk newb, h' = h ++ Some blk :: newb /\ va_rel m' h' L (h ++ None :: nones (List.length newb))) \/ (st < 0 /\ exists j, h' = h ++ nones j)) /\
+    (st = SBDF_OK -> match Va.va_read false None sx with Ok (_, sM) => s' = sM | Err _ => False end).
 Proof.
   intros Hs H3 L. unfold Va.va_read, rd_bind, vt_read.
   destruct sx as [|e s1].
   { (* no encoding byte *)
     pose proof (read_int8_bs2 bv k h m o fv (VPtr ROut 0) VUndef VUndef [] I I Hs) as R8. cbv iota in R8.
-    exists SBDF_ERROR_IO. eexists (Build_rvl _ _ _ _ _ _ _ _ _). do 5 eexists. split; [|split; [exists []; now rewrite app_nil_r|split; [intros _; reflexivity|right; split; [reflexivity|exists 0%nat; cbn; now rewrite app_nil_r]]]].
+    exists SBDF_ERROR_IO. eexists (Build_rvl _ _ _ _ _ _ _ _ _). do 5 eexists. split; [|split; [exists []; now rewrite app_nil_r|split; [intros _; reflexivity|split; [right; split; [reflexivity|exists 0%nat; cbn; now rewrite app_nil_r]|intros X; cbv in X; discriminate X]]]].
     cbn [fbody prog_sbdf_read_valuearray_int]. unrv.
     eapply bsE_seq; [eapply bsE_decl0; evw; reflexivity|]. eapply bsE_seq; [eapply bsE_decl0; evw; reflexivity|]. eapply bsE_seq; [eapply bsE_decl0; evw; reflexivity|].
     eapply bsE_seq_ret. eapply bsE_seq; [eapply bsE_call; [reflexivity|evw; reflexivity|reflexivity|exact R8|unfold rd8s, fr; evw; reflexivity]|].
@@ -595,7 +643,7 @@ Proof.
   { (* no type byte *)
     pose proof (read_int8_bs2 bv k h m o fv (VPtr ROut 0) VUndef VUndef [e] I I Hs) as R8. cbv iota in R8.
     pose proof (vt_read_bs2 bv k h m o fv (VPtr ROut 0) VUndef VUndef [] I I Hs1) as VT. cbv iota in VT. destruct VT as (e' & c' & VT).
-    exists SBDF_ERROR_IO. eexists (Build_rvl _ _ _ _ _ _ _ _ _). do 5 eexists. split; [|split; [exists []; now rewrite app_nil_r|split; [intros _; reflexivity|right; split; [reflexivity|exists 0%nat; cbn; now rewrite app_nil_r]]]].
+    exists SBDF_ERROR_IO. eexists (Build_rvl _ _ _ _ _ _ _ _ _). do 5 eexists. split; [|split; [exists []; now rewrite app_nil_r|split; [intros _; reflexivity|split; [right; split; [reflexivity|exists 0%nat; cbn; now rewrite app_nil_r]|intros X; cbv in X; discriminate X]]]].
     cbn [fbody prog_sbdf_read_valuearray_int]. unrv.
     eapply bsE_seq; [eapply bsE_decl0; evw; reflexivity|]. eapply bsE_seq; [eapply bsE_decl0; evw; reflexivity|]. eapply bsE_seq; [eapply bsE_decl0; evw; reflexivity|].
     eapply bsE_seq; [eapply bsE_seq; [eapply bsE_call; [reflexivity|evw; reflexivity|reflexivity|exact R8|unfold rd8s, fr; evw; reflexivity]|eapply bsE_if; [evw; reflexivity|reflexivity|apply bsE_skip]]|].
@@ -607,7 +655,7 @@ Proof.
     assert (k = 0) by lia. subst k.
     pose proof (read_int8_bs2 bv 0 h m o fv (VPtr ROut 0) VUndef VUndef (e :: t :: s2) I I Hs) as R8. cbv iota in R8.
     pose proof (vt_read_bs2 bv 0 h m o fv (VPtr ROut 0) VUndef VUndef (t :: s2) I I Hs1) as VT. cbv iota in VT. destruct VT as (e' & VT).
-    exists SBDF_ERROR_OUT_OF_MEMORY. eexists (Build_rvl _ _ _ _ _ _ _ _ _). do 5 eexists. split; [|split; [exists []; now rewrite app_nil_r|split; [intros Hk; lia|right; split; [reflexivity|exists 0%nat; cbn; now rewrite app_nil_r]]]].
+    exists SBDF_ERROR_OUT_OF_MEMORY. eexists (Build_rvl _ _ _ _ _ _ _ _ _). do 5 eexists. split; [|split; [exists []; now rewrite app_nil_r|split; [intros Hk; lia|split; [right; split; [reflexivity|exists 0%nat; cbn; now rewrite app_nil_r]|intros X; cbv in X; discriminate X]]]].
     cbn [fbody prog_sbdf_read_valuearray_int]. unrv.
     eapply bsE_seq; [eapply bsE_decl0; evw; reflexivity|]. eapply bsE_seq; [eapply bsE_decl0; evw; reflexivity|]. eapply bsE_seq; [eapply bsE_decl0; evw; reflexivity|].
     eapply bsE_seq; [eapply bsE_seq; [eapply bsE_call; [reflexivity|evw; reflexivity|reflexivity|exact R8|unfold rd8s, fr; evw; reflexivity]|eapply bsE_if; [evw; reflexivity|reflexivity|apply bsE_skip]]|].
@@ -620,25 +668,30 @@ Proof.
   unfold SBDF_PLAINARRAYENCODINGTYPEID, SBDF_RUNLENGTHENCODINGTYPEID, SBDF_BITARRAYENCODINGTYPEID.
   destruct (e =? 1) eqn:E1.
   { assert (e = 1) by lia. subst e.
-    destruct (rvi_read_plain bv o rf rp fo po (dec k) t s2 h m Hs2) as (st & l' & k' & s' & h' & m' & B & Pf & MT & Out). fold L in B, Out.
-    exists st, l', (VCell L 0), k', s', h', m'. split; [apply rvi_read_pre; [exact Hs|exact Hk|exact B]|]. split; [exact Pf|]. split.
+    destruct (rvi_read_plain bv o rf rp fo po (dec k) t s2 h m Hs2) as (st & l' & k' & s' & h' & m' & B & Pf & MT & Out & PP). fold L in B, Out.
+    exists st, l', (VCell L 0), k', s', h', m'. split; [apply rvi_read_pre; [exact Hs|exact Hk|exact B]|]. split; [exact Pf|]. split; [|split].
     - intros Hk0. specialize (MT ltac:(rewrite (Dk Hk0); exact Hk0)). unfold rd_bind, rret.
       destruct (Obj.obj_read_arr false None t s2) as [[ob sM]|eM]; [destruct MT as (-> & -> & _); split; reflexivity|exact MT].
-    - destruct Out as [(-> & _ & newb & -> & _ & VR)|(Hn & j & ->)]; [left; split; [reflexivity|split; [reflexivity|eexists; eexists; split; [reflexivity|exact VR]]]|right; split; [exact Hn|exists (S j); reflexivity]]. }
+    - destruct Out as [(-> & _ & newb & -> & _ & VR)|(Hn & j & ->)]; [left; split; [reflexivity|split; [reflexivity|eexists; eexists; split; [reflexivity|exact VR]]]|right; split; [exact Hn|exists (S j); reflexivity]].
+    - intros X. specialize (PP X). unfold rd_bind, rret. destruct (Obj.obj_read_arr false None t s2) as [[ob sM]|eM]; exact PP. }
   destruct (e =? 2) eqn:E2.
   { assert (e = 2) by lia. subst e.
-    destruct (rvi_read_rle bv o rf rp fo po (dec k) t s2 h m Hs2) as (st & l' & k' & s' & h' & m' & B & Pf & MT & Out). fold L in B, Out.
-    exists st, l', (VCell L 0), k', s', h', m'. split; [apply rvi_read_pre; [exact Hs|exact Hk|exact B]|]. split; [exact Pf|]. split.
-    - intros Hk0. specialize (MT ltac:(rewrite (Dk Hk0); exact Hk0)). unfold rd_bind, rret, rfail in *.
+    destruct (rvi_read_rle bv o rf rp fo po (dec k) t s2 h m Hs2) as (st & l' & k' & s' & h' & m' & B & Pf & MT & Out & PP). fold L in B, Out.
+    exists st, l', (VCell L 0), k', s', h', m'. split; [apply rvi_read_pre; [exact Hs|exact Hk|exact B]|]. split; [exact Pf|]. split; [|split].
+    - intros Hk0. specialize (MT ltac:(rewrite (Dk Hk0); exact Hk0)). clear PP. unfold rd_bind, rret, rfail in *.
       destruct (read_int32 false s2) as [[rows s3]|eR]; [|exact MT]. destruct (rows <? 0); [exact MT|].
       destruct (Obj.obj_read_arr false None SBDF_BYTETYPEID s3) as [[ob1 sM1]|eM1]; [|exact MT].
       destruct (Obj.obj_read_arr false None t sM1) as [[ob2 sM2]|eM2]; [destruct MT as (-> & -> & _); split; reflexivity|exact MT].
     - destruct Out as [(-> & _ & rows & newb1 & newb2 & _ & -> & _ & _ & VR)|(Hn & j & ->)]; [|right; split; [exact Hn|exists (S j); reflexivity]].
-      left. split; [reflexivity|]. split; [reflexivity|]. eexists; eexists. split; [reflexivity|]. rewrite app_length. exact VR. }
+      left. split; [reflexivity|]. split; [reflexivity|]. eexists; eexists. split; [reflexivity|]. rewrite app_length. exact VR.
+    - intros X. specialize (PP X). clear MT. unfold rd_bind, rret, rfail in *.
+      destruct (read_int32 false s2) as [[rows s3]|eR]; [|exact PP]. destruct (rows <? 0); [exact PP|].
+      destruct (Obj.obj_read_arr false None SBDF_BYTETYPEID s3) as [[ob1 sM1]|eM1]; [|exact PP].
+      destruct (Obj.obj_read_arr false None t sM1) as [[ob2 sM2]|eM2]; exact PP. }
   destruct (e =? 3) eqn:E3; [exfalso; assert (e = 3) by lia; subst e; exact (H3 t s2 eq_refl)|].
   unfold byte in He. destruct (rvi_read_unknown (dec k) e t s2 h m He ltac:(lia) ltac:(lia) ltac:(lia)) as (l' & B). fold L in B.
   exists SBDF_ERROR_UNKNOWN_VALUEARRAY_ENCODING, l', (VCell L 0), (dec k), s2, (h ++ [None]), m. split; [apply rvi_read_pre; [exact Hs|exact Hk|exact B]|].
-  split; [exists []; now rewrite app_nil_r|]. split; [intros _; reflexivity|right; split; [reflexivity|exists 1%nat; reflexivity]].
+  split; [exists []; now rewrite app_nil_r|]. split; [intros _; reflexivity|split; [right; split; [reflexivity|exists 1%nat; reflexivity]|intros X; cbv in X; discriminate X]].
 Qed.
 End VaRead.
 
@@ -655,10 +708,12 @@ Theorem va_read_source rf rp fo po k sx m h : Forall byte sx -> (forall t s2, sx
               | Err e => st = e end) /\
     ((st = SBDF_OK /\ lookup "*handle" (vars fin) = Some (VCell (List.length h) 0) /\
         exists blk newb, lookup cells_var (vars fin) = Some (VHeap (h ++ Some blk :: newb)) /\ va_rel (inb fin) (h ++ Some blk :: newb) (List.length h) (h ++ None :: nones (List.length newb))) \/
-     (st < 0 /\ lookup "*handle" (vars fin) = Some VNull /\ exists j, lookup cells_var (vars fin) = Some (VHeap (h ++ nones j)))).
+     (st < 0 /\ lookup "*handle" (vars fin) = Some VNull /\ exists j, lookup cells_var (vars fin) = Some (VHeap (h ++ nones j)))) /\
+    (* under ANY allocation schedule: a read that succeeds has consumed exactly what the model consumes *)
+    (st = SBDF_OK -> match Va.va_read false None sx with Ok (_, sM) => lookup strm_var (vars fin) = Some (VBytes sM) | Err _ => False end).
 Proof.
   intros Hs H3.
-  destruct (rvi_read_bs (VInt 0) [] rf rp fo po k sx h m VNull Hs H3) as (st & l' & sh' & k' & s' & h' & m' & B & Pf & MT & Out).
+  destruct (rvi_read_bs (VInt 0) [] rf rp fo po k sx h m VNull Hs H3) as (st & l' & sh' & k' & s' & h' & m' & B & Pf & MT & Out & PP).
   destruct l'. revert B. unrv. intros B.
   destruct Out as [(-> & -> & blk & newb & -> & VR)|(Hneg & j & ->)].
   - assert (BV : bsE prog_env (fbody prog_sbdf_va_read) (vrd (VPtr rf fo) (VPtr rp po) VUndef VUndef (VInt 0) k sx h m [])
@@ -671,7 +726,8 @@ Proof.
       eapply bsE_seq; [eapply bsE_if; [evw; reflexivity|reflexivity|apply bsE_skip]|]. eapply bsE_return. evw. reflexivity. }
     destruct (bsE_sound _ _ _ _ BV) as (f0 & F). exists f0. intros f Hf. exists SBDF_OK. eexists. split; [apply F; exact Hf|]. split; [exact Pf|]. split.
     + intros Hk. specialize (MT Hk). destruct (Va.va_read false None sx) as [[va sM]|eM]; [destruct MT as (_ & ->); split; reflexivity|exact MT].
-    + left. split; [reflexivity|]. split; [reflexivity|]. exists blk, newb. split; [reflexivity|exact VR].
+    + split; [left; split; [reflexivity|]; split; [reflexivity|]; exists blk, newb; split; [reflexivity|exact VR]|].
+      intros X. specialize (PP X). destruct (Va.va_read false None sx) as [[va sM]|eM]; [rewrite PP; reflexivity|exact PP].
   - assert (BV : bsE prog_env (fbody prog_sbdf_va_read) (vrd (VPtr rf fo) (VPtr rp po) VUndef VUndef (VInt 0) k sx h m [])
                    (OReturn (VInt st) (vrd (VPtr rf fo) (VPtr rp po) (VInt st) VNull (VInt 0) k' s' (h ++ nones j) m' []))).
     { cbn [fbody prog_sbdf_va_read]. unfold vrd, fr. cbn [app].
@@ -682,7 +738,7 @@ Proof.
       eapply bsE_seq; [eapply bsE_if; [evw; reflexivity|cbn [truth]; replace (st =? 0) with false by lia; reflexivity|eapply bsE_expr; evw; reflexivity]|]. eapply bsE_return. evw. reflexivity. }
     destruct (bsE_sound _ _ _ _ BV) as (f0 & F). exists f0. intros f Hf. exists st. eexists. split; [apply F; exact Hf|]. split; [exact Pf|]. split.
     + intros Hk. specialize (MT Hk). destruct (Va.va_read false None sx) as [[va sM]|eM]; [destruct MT as (MT & _); unfold SBDF_OK in MT; lia|exact MT].
-    + right. split; [exact Hneg|]. split; [reflexivity|]. exists j. reflexivity.
+    + split; [right; split; [exact Hneg|]; split; [reflexivity|]; exists j; reflexivity|]. intros X. unfold SBDF_OK in X. lia.
 Qed.
 
 (* ================================================================== what was read can be released: once, completely
@@ -699,7 +755,7 @@ Theorem obj_read_arr_then_destroy rf rp fo po v k sx h m : Forall byte sx ->
            inb fin2 = inb fin /\ lookup cells_var (vars fin2) = Some (VHeap (h ++ nones nb))).
 Proof.
   intros Hs.
-  destruct (obj_read_arr_any rf rp fo po v (VInt 0) k sx h m [] Hs) as (st & cn & e & r & so' & k' & sx' & h' & m' & B & Pf & MT & Out).
+  destruct (obj_read_arr_any rf rp fo po v (VInt 0) k sx h m [] Hs) as (st & cn & e & r & so' & k' & sx' & h' & m' & B & Pf & MT & Out & _).
   destruct (bsE_sound _ _ _ _ B) as (f0 & F). exists f0. intros f Hf. exists st. eexists. split; [apply F; exact Hf|].
   intros E. destruct Out as [(_ & -> & _ & newb & -> & Hnb & D)|(Hn & _)]; [|unfold SBDF_OK in E; lia].
   split; [reflexivity|].
@@ -728,7 +784,7 @@ Theorem va_read_then_destroy rf rp fo po k sx m h : Forall byte sx -> (forall t 
            inb fin2 = inb fin /\ lookup cells_var (vars fin2) = Some (VHeap (h ++ nones (S nb)))).
 Proof.
   intros Hs H3. destruct (va_read_source rf rp fo po k sx m h Hs H3) as (f0 & F). exists f0. intros f Hf.
-  destruct (F f Hf) as (st & fin & C & _ & _ & Out). exists st, fin. split; [exact C|]. intros E.
+  destruct (F f Hf) as (st & fin & C & _ & _ & Out & _). exists st, fin. split; [exact C|]. intros E.
   destruct Out as [(_ & Hh & blk & newb & Hc & VR)|(Hn & _)]; [|unfold SBDF_OK in E; lia].
   split; [exact Hh|]. exists (h ++ Some blk :: newb), (List.length newb). split; [exact Hc|]. split; [rewrite app_length; cbn [List.length]; lia|].
   intros k' s'. destruct (va_rel_destroy k' s' (inb fin) _ _ _ VR) as (f1 & F1). exists f1. intros g Hg. destruct (F1 g Hg) as (fin2 & C2 & I2 & H2).
